@@ -12,7 +12,8 @@ import vlib
 
 # family checks whose runs feed the aggregates
 MEMBERS = ["C13", "C15", "C05", "C04", "C10", "C19", "C06", "C08", "C16",
-           "C02", "C18", "C01", "C17", "C20", "HOSTILE_CAL"]
+           "C02", "C18", "C01", "C17", "C20", "HOSTILE_CAL", "C14", "C07",
+           "C09"]
 
 
 def _run_member(args):
